@@ -32,7 +32,8 @@ RULE = ("real cmd_send.send()/cmd_receive.receive() against the real server, tra
         "delivered); distinct = (payload kind, size, fault, position, path).")
 ASSUMPTIONS = ["file modes/timestamps are not compared", "a leftover <dest>.tmp after a failure is allowed",
                "sizes <= ~1 MB, trees <= 12 entries"]
-FLOORS = {"quick": {"clean_success": 60, "data_faults_fired": 50, "ack_faults_fired": 10, "liar_cases": 20, "grow_cases": 15, "stale_tmp_cases": 30, "unsendable_entries_skipped": 20, "mode_zeromode": 5, "mode_verify-yes": 10, "mode_verify-no": 5, "mode_sender-allocates": 5, "mode_receiver-allocates": 5},
+FLOORS = {"quick": {"clean_success": 60, "data_faults_fired": 50, "ack_faults_fired": 10, "liar_cases": 20, "grow_cases": 15, "stale_tmp_cases": 30, "unsendable_entries_skipped": 20, "mode_zeromode": 5, "mode_verify-yes": 10, "mode_verify-no": 5, "mode_sender-allocates": 5, "mode_receiver-allocates": 5,
+                    "dest_inbox-old_file_prompt": 2, "dest_inbox-empty_directory_prompt": 2, "dest_newname_directory_prompt": 2},
           "thorough": {"clean_success": 2000, "data_faults_fired": 4000, "ack_faults_fired": 250, "liar_cases": 800, "mode_zeromode": 150, "mode_verify-yes": 300, "mode_verify-no": 150, "mode_sender-allocates": 150, "mode_receiver-allocates": 150}}
 APPID = "lothar.com/wormhole/text-or-file-xfer"
 TEXTS = ["hello", "", "it's \"quoted\"", "line1\nline2\r\n\ttab", "\x1b[31mred\x1b[0m \x07bell", "‮evil‬ bidi",
